@@ -1,0 +1,22 @@
+//go:build verif
+
+// Package verifhook holds the observation points used by the external verification harness.
+// With the build tag `verif` the harness can install observers; nothing is installed by default.
+package verifhook
+
+import (
+	sdk "github.com/cosmos/cosmos-sdk/types"
+	corevm "github.com/ethereum/go-ethereum/core/vm"
+)
+
+// TracerWrapper, when set, may wrap the tracer of every EVM instance the keeper builds
+// so the harness observes call frames. It must forward every call to the wrapped tracer.
+var TracerWrapper func(ctx sdk.Context, tracer corevm.EVMLogger) corevm.EVMLogger
+
+// WrapTracer applies TracerWrapper when one is installed.
+func WrapTracer(ctx sdk.Context, tracer corevm.EVMLogger) corevm.EVMLogger {
+	if w := TracerWrapper; w != nil {
+		return w(ctx, tracer)
+	}
+	return tracer
+}
